@@ -144,7 +144,18 @@ impl World {
         let mut tags = vec![];
         let t22 = ver == 2 && t[8] != "65535";
         let funds = u64::MAX / 4;
-        let fx0 = Fx::from_world(self, fee_a, fee_b, t22, ver == 2 && t[11] != "65535", funds);
+        let mut fx0 = Fx::from_world(self, fee_a, fee_b, t22, ver == 2 && t[11] != "65535", funds);
+        // trade-enable mode (C14 / C17): the pool's Oracle says trading starts in the future (adaptive-fee pools only)
+        let te = t.get(14).map_or(false, |x| *x == "1");
+        let mut closed = false;
+        if te {
+            if let Some(a) = fx0.bank.accts.get_mut(&fx0.oracle) {
+                if a.owner == ::whirlpool::ID && a.data.len() >= 48 {
+                    a.data[40..48].copy_from_slice(&(self.now + 1000).to_le_bytes());
+                    closed = true;
+                }
+            }
+        }
         let (fin, fout) = if dir { (fee_a, fee_b) } else { (fee_b, fee_a) };
         let f = |c: Option<FeeCfg>| c.map(|c| (c.bps as u64, c.max_fee)).unwrap_or((0, 0));
         let ((bi, mi), (bo, mo)) = (f(fin), f(fout));
@@ -209,6 +220,23 @@ impl World {
             (fx.swap_v1_metas(dir), ::whirlpool::instruction::Swap { amount, other_amount_threshold: thr, sqrt_price_limit: limit, amount_specified_is_input: ein, a_to_b: dir }.data())
         };
         let (res, out) = fx.bank.execute(&metas, &data);
+        if closed {
+            // C14: trading is refused before the pool's trade-enable time, whatever else holds
+            return match &res {
+                Err(e) => {
+                    let name = err_name(e, &out.logs);
+                    if fx.bank.accts != fx0.bank.accts {
+                        viols.push("a failed instruction changed account state".to_string());
+                    }
+                    tags.push("x_trade_not_enabled");
+                    XSwapOut { line: format!("err {}", name), viols, tags }
+                }
+                Ok(()) => {
+                    viols.push(format!("C14 swap v{} succeeded on a pool whose trade-enable time is in the future", ver));
+                    XSwapOut { line: "ACCEPTED".to_string(), viols, tags }
+                }
+            };
+        }
         let bal = |fx: &Fx, k| token_amount(&fx.bank.data(k));
         let (tin, tout, vin, vout) = if dir { (fx.trader_a, fx.trader_b, fx.vault_a, fx.vault_b) } else { (fx.trader_b, fx.trader_a, fx.vault_b, fx.vault_a) };
         let line = match &res {
